@@ -57,6 +57,8 @@ def spec(tier, seed):
             "bounds": "CRL shapes: <= 2 revoked entries, every reason code and none, invalidity date present/absent, IDP none/no scope/user/CA with 1..2 "
                       "URIs, key-id methods, serial / CRL-number length <= 4 with first byte from {01,7f,80,ff} (tail symbolic), times concrete and pairwise "
                       "distinct; guards: three date relations (same day, one day later, one day earlier; years < 2050) x symbolic time of day incl. nanoseconds x symbolic issuer usages",
-            "outside": "verdict of an external revocation checker (reduced to: the serial INTEGER values in the list are exactly the given ones); "
+            "outside": "the ordering guard for dates from 2050 on with a symbolic time of day (GeneralizedTime branch: did not finish in 50 min; the "
+                       "encoded form for such dates is decided with concrete times by the CRL shapes and for every date-time by C09 / c04_time_forms); "
+                       "verdict of an external revocation checker (reduced to: the serial INTEGER values in the list are exactly the given ones); "
                        "non-empty issuer names (engine M)",
             "assumptions": ["S1, S2, S3 as in DESIGN.md 2.2", "array-backed revoked-entry vector", "CBMC --max-field-sensitivity-array-size 2048"]}
